@@ -25,7 +25,8 @@ RULE = (
     "''), with 2..5 distinct tuples chosen first (so equal tuples are common) and rows assigned to them; given "
     "as 2-d ndarray, DataFrame or list of lists; used as sensitive features (and as control features) of the "
     "parity moments, of GridSearch / ExponentiatedGradient and of ThresholdOptimizer. Non-trivial: >= 2 "
-    "distinct tuples of which at least one contains the separator ',' or the escape '\\\\'; class "
+    "distinct tuples of which at least one contains the separator ',' or the escape '\\\\', or an integer-coded table "
+    "(cells -2..10 handed over as int ndarray / DataFrame / lists) with a negative code; class "
     "'naive_join_collides' marks tables whose tuples collide under an unescaped ','-join."
 )
 ASSUMPTIONS = [
@@ -59,6 +60,14 @@ def _wrap_table(kind, table, names=None):
             for j, c in enumerate(row):
                 arr[i, j] = int(c) if (c.isdigit() and (c == "0" or not c.startswith("0"))) else c
         return arr
+    if kind in ("ndarray_int", "dataframe_int", "listoflists_int"):
+        # integer-coded columns (e.g. -1 = unknown) handed over as integers
+        ints = [[int(c) for c in row] for row in table]
+        if kind == "ndarray_int":
+            return np.array(ints, dtype=np.int64)
+        if kind == "listoflists_int":
+            return ints
+        return pd.DataFrame(ints, columns=names or [f"c{j}" for j in range(ncol)], index=np.arange(len(table))[::-1])
     if kind == "dataframe":
         names = names or [f"c{j}" for j in range(ncol)]
         return pd.DataFrame([list(r) for r in table], columns=names, index=np.arange(len(table))[::-1])
@@ -67,11 +76,24 @@ def _wrap_table(kind, table, names=None):
     raise ValueError(kind)
 
 
+def _is_int_table(table):
+    return all(c.lstrip("-").isdigit() and str(int(c)) == c for row in table for c in row)
+
+
+def _int_kind(draw, table, kind):
+    """For tables whose cells are all canonical integers: hand them over as integers two times in three."""
+    if _is_int_table(table) and draw(st.integers(0, 2)) > 0:
+        return draw(st.sampled_from(["ndarray_int", "dataframe_int", "listoflists_int"]))
+    return kind
+
+
 def _tags(part):
     tags = []
     special = any(("," in c or "\\" in c) for t in part for c in t)
     if len(part) >= 2 and special:
         tags.append("nt")
+    if len(part) >= 2 and all(c.lstrip("-").isdigit() for t in part for c in t) and any(c.startswith("-") for t in part for c in t):
+        tags += ["nt", "integer_codes_with_negative"] if "nt" not in tags else ["integer_codes_with_negative"]
     naive = {}
     for t in part:
         naive.setdefault(",".join(t), []).append(t)
@@ -208,6 +230,11 @@ def check_threshold_optimizer(case):
     cands = [base[:-1] + [base[-1] + suf] for suf in ("z", ",", "\\", " ")] + [[c + "q" for c in base]]
     unseen = [u for u in cands if tuple(u) not in part]
     ref_u = ["\u00e9q"] * ncol
+    if case["kind2"].endswith("_int"):
+        # integer tables: unseen tuples are other integers (one more digit, other sign)
+        cands = [base[:-1] + [base[-1] + "7"], [("-" + c).replace("--", "") for c in base], base[:-1] + [str(int(base[-1]) + 1000)]]
+        unseen = [u for u in cands if tuple(u) not in part and _is_int_table([u])]
+        ref_u = ["777"] * ncol
     if unseen and tuple(ref_u) not in part:
         Xu = np.asarray(levels, dtype=float).reshape(-1, 1)
         p_ref = to._pmf_predict(Xu, sensitive_features=_wrap_table(case["kind2"], [ref_u] * len(levels)))[:, 1]
@@ -344,9 +371,10 @@ _cell = st.one_of(st.sampled_from(CELLS), st.lists(st.sampled_from(CHARS), min_s
 @st.composite
 def _table(draw, min_per=1, max_per=3, max_tuples=5, both_labels=False):
     ncol = draw(st.sampled_from([2, 2, 3]))
-    mode = draw(st.sampled_from(["free", "collide", "collide"]))
+    mode = draw(st.sampled_from(["free", "collide", "collide", "int_codes"]))
     k = draw(st.integers(2, max_tuples))
     tuples = []
+    cell = st.sampled_from(["-1", "0", "1", "2", "-2", "10", "3", "-1", "0", "1"]) if mode == "int_codes" else _cell
     if mode == "collide" and ncol == 2:
         # pairs that an unescaped or half-escaped join confuses
         base = draw(st.sampled_from([
@@ -364,7 +392,7 @@ def _table(draw, min_per=1, max_per=3, max_tuples=5, both_labels=False):
         ]))
         tuples = list(base)
     while len(tuples) < k:
-        t = tuple(draw(_cell) for _ in range(ncol))
+        t = tuple(draw(cell) for _ in range(ncol))
         if t not in tuples:
             tuples.append(t)
         else:
@@ -393,7 +421,7 @@ KINDS = ["ndarray", "dataframe", "listoflists", "ndarray_str"]
 def _moment_cases(draw):
     table, y = draw(_table())
     n = len(table)
-    return {"table": table, "y": y, "kind": draw(st.sampled_from(KINDS + ["ndarray_mixed"])),
+    return {"table": table, "y": y, "kind": _int_kind(draw, table, draw(st.sampled_from(KINDS + ["ndarray_mixed"]))),
             "moment": draw(st.sampled_from(["DemographicParity", "DemographicParity", "EqualizedOdds", "TruePositiveRateParity",
                                             "ErrorRateParity", "FalsePositiveRateParity"])),
             "role": draw(st.sampled_from(["sensitive", "sensitive", "control"])),
@@ -406,7 +434,7 @@ def _to_cases(draw):
     n = len(table)
     return {"table": table, "y": y,
             "scores": draw(st.lists(st.sampled_from([0.1, 0.3, 0.5, 0.7, 0.9]), min_size=n, max_size=n)),
-            "kind": draw(st.sampled_from(KINDS)), "kind2": draw(st.sampled_from(KINDS)),
+            "kind": _int_kind(draw, table, draw(st.sampled_from(KINDS))), "kind2": _int_kind(draw, table, draw(st.sampled_from(KINDS))),
             "constraint": draw(st.sampled_from(["demographic_parity", "equalized_odds", "true_positive_rate_parity",
                                                 "false_positive_rate_parity"])),
             "grid_size": draw(st.sampled_from([10, 1000])), "flip": draw(st.booleans()),
@@ -420,14 +448,14 @@ def _red_cases(draw):
     table, y = draw(_table(min_per=2, max_per=4, max_tuples=3, both_labels=True))
     n = len(table)
     return {"table": table, "y": y, "levels": draw(st.lists(st.integers(0, 2), min_size=n, max_size=n)),
-            "kind": draw(st.sampled_from(KINDS)), "estimator": draw(st.sampled_from(["gs", "eg"])),
+            "kind": _int_kind(draw, table, draw(st.sampled_from(KINDS))), "estimator": draw(st.sampled_from(["gs", "eg"])),
             "moment": draw(st.sampled_from(["DemographicParity", "EqualizedOdds"])), "pick": draw(st.integers(0, 10))}
 
 
 @st.composite
 def _mf_cases(draw):
     table, y = draw(_table())
-    return {"table": table, "y": y, "kind": draw(st.sampled_from(KINDS))}
+    return {"table": table, "y": y, "kind": _int_kind(draw, table, draw(st.sampled_from(KINDS)))}
 
 
 def _fuzz_shard(tier, seed, shard, n_shards, n_examples):
